@@ -94,3 +94,22 @@ def ref_hmac(klen, tlen):
 def ref_crc(tlen):
     v = zlib.crc32(text_bytes(tlen)) & 0xFFFFFFFF
     return [(v >> 24) & 0xFF, (v >> 16) & 0xFF, (v >> 8) & 0xFF, v & 0xFF]
+
+
+ADDR_TYPES = (0x0001, 0x0004, 0x0005, 0x802C, 0x0020, 0x0012, 0x0016)
+
+
+def addr_wire(b):
+    """Family byte and value length of every address-valued attribute in the bytes (own TLV walk, stops at
+    MESSAGE-INTEGRITY / FINGERPRINT): [{code, fam, len}] in wire order."""
+    b = bytes(b)
+    out, o = [], 20
+    while o + 4 <= len(b):
+        ty = (b[o] << 8) | b[o + 1]
+        al = (b[o + 2] << 8) | b[o + 3]
+        if ty in (MI, FP) or o + 4 + al > len(b):
+            break
+        if ty in ADDR_TYPES:
+            out.append({"code": ty, "fam": b[o + 5] if al >= 2 else -1, "len": al})
+        o += 4 + al + ((4 - al % 4) % 4)
+    return out
